@@ -96,8 +96,8 @@ func vpC07BuildOpt(tb vpTB, base string, transit bool, echo *harn.Listener, sock
 	if !w.m.waitCIDR("A", "127.0.0.1", "X", 5*time.Second) || !w.m.waitAgent("A", "X", 5*time.Second) {
 		tb.Fatalf("harness: routes did not converge")
 	}
-	deadline := time.Now().Add(5 * time.Second)
-	for w.a.routeMgr.LookupForward("echo") == nil && time.Now().Before(deadline) {
+	deadline := time.Now().Add(vpPatience(5 * time.Second))
+	for (w.a.routeMgr.LookupForward("echo") == nil || w.a.routeMgr.LookupForward("echo6") == nil) && time.Now().Before(deadline) {
 		time.Sleep(300 * time.Microsecond)
 	}
 	return w
